@@ -105,6 +105,17 @@ class Check(object):
         self.transitions += max(r.generated - 1, 0)
         return r
 
+    def apalache(self, module, init, next_, inv, length, cinit=None, expect="NoError", timeout=900, label=None):
+        """Job A: a symbolic check by Apalache (inductive invariants for unbounded constants).  Like job D it never
+        reads the code under test, so an unexpected outcome is a machinery error."""
+        outcome, wall, tail = tlcmod.run_apalache(module, init, next_, inv, length, cinit=cinit, timeout=timeout)
+        self.jobs.append(dict(job="A", tool="apalache-mc 0.58", module=module, init=init, next=next_, inv=inv,
+                              length=length, outcome=outcome, expected=expect, wall_s=round(wall, 1), label=label))
+        if outcome != expect:
+            raise MachineryError("apalache job %s (%s / %s / %s, length %d): outcome %s, expected %s\n%s" %
+                                 (module, init, next_, inv, length, outcome, expect, tail))
+        return outcome
+
     def validate(self, module, cfg, traces, workers=NCPU, timeout=1800, batch=4000, heap="6g",
                  key_of=None, label=None, env=None):
         """Job T: validate recorded traces against spec/<module>.tla.
